@@ -228,6 +228,81 @@ pub fn run(tier: Tier, replay: Option<String>) -> i32 {
             }
         }
     }
+    // world: large frames (3-byte Wrath server header included) through the plain asynchronous readers, and
+    // the DECRYPTING readers of all three flavours under delivery schedules (they are separate copies of the header reader)
+    for ep in corpus.eps.iter() {
+        let Ns::World(exp) = ep.ns() else { continue };
+        let dir = ep.dir();
+        let sizes: &[usize] = if dir == Direction::Server { &[0, 5, 0x7FF0, 0x7FFC, 0x7FFD, 0x7FFE, 0x7FFF, 0x8000, 0xFFFA, 0xFFFD, 0x10000, 0x12345] } else { &[0, 5, 0x2000, 0x27F0] };
+        let mut frames: Vec<Vec<u8>> = Vec::new();
+        for n in sizes {
+            if let Ok(f) = crate::typed::warden_write(exp, dir, *n) {
+                // only frames the blocking plain reader accepts (recorded findings about size limits stay with C02 / C09)
+                if matches!(ep.read_only(&f), Outcome::Ok { .. }) {
+                    frames.push(f);
+                }
+            }
+        }
+        for (_, f) in corpus.counted_array_frames(ep.ns(), dir, &[0x1_0002, 0x2_0000, 0x7_FFF0]) {
+            if matches!(ep.read_only(&f), Outcome::Ok { .. }) {
+                frames.push(f);
+            }
+        }
+        if frames.is_empty() {
+            continue;
+        }
+        let scheds = |len: usize| -> Vec<Schedule> { vec![Schedule::whole(), Schedule::single_bytes(12.min(len), 1), Schedule { steps: vec![(1, 1), (0, 2), (2, 1), (1, len / 2)] }, Schedule { steps: vec![(0, 3), (1, 2), (0, len.saturating_sub(6)), (1, 1)] }] };
+        for f in &frames {
+            let sync = ep.read_only(f);
+            for sched in scheds(f.len()) {
+                for flavor in [Flavor::Tokio, Flavor::Astd] {
+                    c.eval();
+                    c.count("large-frame.plain");
+                    c.nontrivial(vcommon::fnv(format!("large|{}|{}|{:?}|{}", ep.label(), f.len(), sched.steps, flavor.name()).as_bytes()));
+                    let a = ep.read_async(flavor, f, &sched);
+                    let a = match a {
+                        Outcome::Ok { debug, consumed, .. } => Outcome::Ok { debug, consumed, rewritten: Err("skipped".into()) },
+                        o => o,
+                    };
+                    if let Err(m) = same(&sync, &a) {
+                        c.fail(&format!("c06:{}/large-frame:{}:{}", ep.label(), flavor.name(), m.split(':').next().unwrap_or("")), &format!("{} reader, body of {} bytes, schedule {:?}: {}", flavor.name(), f.len(), sched.steps, m), json!({"endpoint": ep.label(), "frame_len": f.len(), "flavor": flavor.name(), "schedule": sched.steps.iter().map(|s| json!([s.0, s.1])).collect::<Vec<_>>()}));
+                    }
+                }
+            }
+        }
+        // sequences small / large / small through the encrypted stream
+        let key = [0x5Au8; 40];
+        for big in frames.iter().filter(|f| f.len() > 64) {
+            let seq = vec![frames[0].clone(), big.clone(), frames[1.min(frames.len() - 1)].clone()];
+            let Some(reference) = ep.encrypted_cycle(&key, &seq, Flavor::Sync, Flavor::Sync, None) else { continue };
+            if reference.cipher.is_err() {
+                c.count("encrypted-reference-write-failed (left to C05)");
+                continue;
+            }
+            for sched in scheds(big.len()) {
+                for flavor in [Flavor::Tokio, Flavor::Astd] {
+                    c.eval();
+                    c.count("large-frame.encrypted");
+                    c.nontrivial(vcommon::fnv(format!("enc|{}|{}|{:?}|{}", ep.label(), big.len(), sched.steps, flavor.name()).as_bytes()));
+                    let Some(cyc) = ep.encrypted_cycle_sched(&key, &seq, Flavor::Sync, flavor, None, &sched) else { continue };
+                    let mut bad: Option<String> = None;
+                    if cyc.read_back.len() != reference.read_back.len() {
+                        bad = Some(format!("count: blocking reader returns {} messages, {} returns {}", reference.read_back.len(), flavor.name(), cyc.read_back.len()));
+                    } else {
+                        for (k, (a, b)) in reference.read_back.iter().zip(cyc.read_back.iter()).enumerate() {
+                            if let Err(m) = same(a, b) {
+                                bad = Some(format!("message {}: {}", k, m));
+                                break;
+                            }
+                        }
+                    }
+                    if let Some(m) = bad {
+                        c.fail(&format!("c06:{}/encrypted-stream:{}:{}", ep.label(), flavor.name(), m.split(':').next().unwrap_or("")), &format!("decrypting {} reader, sequence with a body of {} bytes, schedule {:?}: {}", flavor.name(), big.len(), sched.steps, m), json!({"endpoint": ep.label(), "big_frame_len": big.len(), "flavor": flavor.name(), "schedule": sched.steps.iter().map(|s| json!([s.0, s.1])).collect::<Vec<_>>()}));
+                    }
+                }
+            }
+        }
+    }
     c.finish()
 }
 
